@@ -265,21 +265,24 @@ Definition parse_row (fields : list string) : res (rty * string) :=
   | _ => Err (EPanic "ROWS: assert_eq!(fields.len(), 2)")
   end.
 
-Definition add_row (ty : rty) (name : string) (m : mps) : mps :=
+(* N rows: the first one names the objective; later ones (other than the objective) are
+   free rows, remembered in [free]; E / G / L rows enter the matrix *)
+Definition add_row (ty : rty) (name : string) (free : list string) (m : mps) : mps * list string :=
   let r := m_rows m in
   match ty with
   | RN =>
-      {| m_name := m_name m; m_max := m_max m;
-         m_obj := if sempty (m_obj m) then name else m_obj m;
-         m_c := m_c m; m_rows := r; m_cols := m_cols m |}
+      if sempty (m_obj m) then
+        ({| m_name := m_name m; m_max := m_max m; m_obj := name;
+            m_c := m_c m; m_rows := r; m_cols := m_cols m |}, free)
+      else if name =? m_obj m then (m, free) else (m, sadd name free)
   | _ =>
       let r' :=
         {| r_a := insert name [] (r_a r); r_b := r_b r;
            r_eq := match ty with RE => sadd name (r_eq r) | _ => r_eq r end;
            r_ge := match ty with RG => sadd name (r_ge r) | _ => r_ge r end;
            r_le := match ty with RL => sadd name (r_le r) | _ => r_le r end |} in
-      {| m_name := m_name m; m_max := m_max m; m_obj := m_obj m; m_c := m_c m;
-         m_rows := r'; m_cols := m_cols m |}
+      ({| m_name := m_name m; m_max := m_max m; m_obj := m_obj m; m_c := m_c m;
+          m_rows := r'; m_cols := m_cols m |}, free)
   end.
 
 (* ---- (row, value) pairs of COLUMNS / RHS / RANGES lines ---- *)
@@ -318,13 +321,14 @@ Definition parse_column (fields : list string) : res colstmt :=
     end.
 
 (* one (row, value) chunk of a column line: the number is parsed first, then the row is
-   looked up (objective row -> c, otherwise a[row] or UnknownRowName) *)
-Definition add_coef (col : string) (rv : string * string) (m : mps) : res mps :=
+   looked up (objective row -> c, free row -> ignored, otherwise a[row] or UnknownRowName) *)
+Definition add_coef (free : list string) (col : string) (rv : string * string) (m : mps) : res mps :=
   let '(row, v) := rv in
   let? q := read_fin v in
   if row =? m_obj m then
     Ok {| m_name := m_name m; m_max := m_max m; m_obj := m_obj m;
           m_c := insert col q (m_c m); m_rows := m_rows m; m_cols := m_cols m |}
+  else if smem row free then Ok m
   else
     let r := m_rows m in
     match lookup row (r_a r) with
@@ -336,10 +340,11 @@ Definition add_coef (col : string) (rv : string * string) (m : mps) : res mps :=
               m_cols := m_cols m |}
     end.
 
-Fixpoint add_coefs (col : string) (l : list (string * string)) (m : mps) : res mps :=
+Fixpoint add_coefs (free : list string) (col : string) (l : list (string * string)) (m : mps)
+  : res mps :=
   match l with
   | [] => Ok m
-  | rv :: l' => let? m' := add_coef col rv m in add_coefs col l' m'
+  | rv :: l' => let? m' := add_coef free col rv m in add_coefs free col l' m'
   end.
 
 Definition declare_col (col : string) (is_int : bool) (m : mps) : mps :=
@@ -510,9 +515,10 @@ Definition finish_cols (c : mcols) : mcols :=
 
 Inductive cursor := CName | CRows | CColumns | CRhs | CRanges | CBounds | CEnd.
 Record pstate := {
-  p_cur : cursor; p_int : bool; p_wait : bool; p_done : bool; p_mps : mps }.
+  p_cur : cursor; p_int : bool; p_wait : bool; p_done : bool; p_free : list string; p_mps : mps }.
 Definition pstate0 : pstate :=
-  {| p_cur := CName; p_int := false; p_wait := false; p_done := false; p_mps := mps0 |}.
+  {| p_cur := CName; p_int := false; p_wait := false; p_done := false; p_free := [];
+     p_mps := mps0 |}.
 
 Definition parse_cursor (s : string) : res cursor :=
   if s =? "ROWS" then Ok CRows else if s =? "COLUMNS" then Ok CColumns
@@ -523,7 +529,7 @@ Definition parse_sense (s : string) : res bool :=
   if s =? "MIN" then Ok false else if s =? "MAX" then Ok true else Err (EInvalidObjSense s).
 
 Definition with_mps (st : pstate) (m : mps) : pstate :=
-  {| p_cur := p_cur st; p_int := p_int st; p_wait := p_wait st; p_done := p_done st; p_mps := m |}.
+  {| p_cur := p_cur st; p_int := p_int st; p_wait := p_wait st; p_done := p_done st; p_free := p_free st; p_mps := m |}.
 Definition set_sense (m : mps) (b : bool) : mps :=
   {| m_name := m_name m; m_max := b; m_obj := m_obj m; m_c := m_c m; m_rows := m_rows m;
      m_cols := m_cols m |}.
@@ -538,12 +544,12 @@ Definition read_header (st : pstate) (line : string) : res pstate :=
       match strip_prefix "OBJSENSE" line with
       | Some sense =>
           if sempty (trim sense) then
-            Ok {| p_cur := p_cur st; p_int := p_int st; p_wait := true; p_done := p_done st;
+            Ok {| p_cur := p_cur st; p_int := p_int st; p_wait := true; p_done := p_done st; p_free := p_free st;
                   p_mps := p_mps st |}
           else let? b := parse_sense (trim sense) in Ok (with_mps st (set_sense (p_mps st) b))
       | None =>
           let? c := parse_cursor (trim line) in
-          Ok {| p_cur := c; p_int := p_int st; p_wait := p_wait st; p_done := p_done st;
+          Ok {| p_cur := c; p_int := p_int st; p_wait := p_wait st; p_done := p_done st; p_free := p_free st;
                 p_mps := p_mps st |}
       end
   end.
@@ -551,15 +557,19 @@ Definition read_header (st : pstate) (line : string) : res pstate :=
 Definition read_fields (st : pstate) (line : string) (fields : list string) : res pstate :=
   let m := p_mps st in
   match p_cur st with
-  | CRows => let? (ty, name) := parse_row fields in Ok (with_mps st (add_row ty name m))
+  | CRows =>
+      let? (ty, name) := parse_row fields in
+      let '(m', free') := add_row ty name (p_free st) m in
+      Ok {| p_cur := p_cur st; p_int := p_int st; p_wait := p_wait st; p_done := p_done st;
+            p_free := free'; p_mps := m' |}
   | CColumns =>
       let? cs := parse_column fields in
       match cs with
       | CMarker on =>
-          Ok {| p_cur := p_cur st; p_int := on; p_wait := p_wait st; p_done := p_done st;
+          Ok {| p_cur := p_cur st; p_int := on; p_wait := p_wait st; p_done := p_done st; p_free := p_free st;
                 p_mps := m |}
       | CEntry col pairs =>
-          let? m' := add_coefs col pairs (declare_col col (p_int st) m) in Ok (with_mps st m')
+          let? m' := add_coefs (p_free st) col pairs (declare_col col (p_int st) m) in Ok (with_mps st m')
       end
   | CRhs =>
       if negb (len35 fields) then Err (EPanic "RHS: assert!(fields.len() == 3 || fields.len() == 5)")
@@ -571,7 +581,7 @@ Definition read_fields (st : pstate) (line : string) (fields : list string) : re
       let? s := parse_bound fields in Ok (with_mps st (set_cols m (apply_bound (m_cols m) s)))
   | CName => Err (EInvalidHeader line)
   | CEnd =>
-      Ok {| p_cur := p_cur st; p_int := p_int st; p_wait := p_wait st; p_done := true; p_mps := m |}
+      Ok {| p_cur := p_cur st; p_int := p_int st; p_wait := p_wait st; p_done := true; p_free := p_free st; p_mps := m |}
   end.
 
 Definition step (st : pstate) (line : string) : res pstate :=
@@ -585,7 +595,7 @@ Definition step (st : pstate) (line : string) : res pstate :=
       match fields with
       | f0 :: _ =>
           let? b := parse_sense f0 in
-          Ok {| p_cur := p_cur st; p_int := p_int st; p_wait := false; p_done := p_done st;
+          Ok {| p_cur := p_cur st; p_int := p_int st; p_wait := false; p_done := p_done st; p_free := p_free st;
                 p_mps := set_sense (p_mps st) b |}
       | [] => Err (EPanic "fields[0]")
       end
@@ -643,7 +653,7 @@ Fixpoint enumerate_from {X} (i : N) (l : list X) : list (N * X) :=
 (* (decision variables, name -> id) *)
 Definition convert_dvars (c : mcols) : list dvar * list (string * N) :=
   let vars := c_vars c in
-  if existsb (fun x => negb (starts_with VAR_PREFIX x)) vars then
+  if existsb (fun x => match parse_id_tag VAR_PREFIX x with None => true | Some _ => false end) vars then
     let ivs := enumerate_from 0%N vars in
     (map (fun iv => {| dv_id := fst iv; dv_kind := get_dvar_kind c (snd iv);
                        dv_bound := Some (get_dvar_bound c (snd iv));
@@ -702,7 +712,7 @@ Fixpoint rmap {X Y} (f : X -> res Y) (l : list X) : res (list Y) :=
 
 Definition convert_constraints (r : mrows) (ids : list (string * N)) : res (list cons) :=
   let a := r_a r in
-  if existsb (fun x => negb (starts_with CONSTR_PREFIX (fst x))) a then
+  if existsb (fun x => match parse_id_tag CONSTR_PREFIX (fst x) with None => true | Some _ => false end) a then
     rmap (fun ie => convert_constraint r ids (fst ie) (Some (fst (snd ie))) (fst (snd ie)) (snd (snd ie)))
          (enumerate_from 0%N a)
   else
@@ -786,13 +796,15 @@ Definition w_rows (I : inst) : list string :=
   "ROWS" :: " N OBJ" ::
   map (fun c => " " +++ (if (cn_eq c =? 2)%N then "L" else "E") +++ " " +++ constr_name c) (in_cons I).
 
-(* write_col_entry: one line per term of the row with this id and a non-zero coefficient *)
+(* write_col_entry: one entry per (column, row): the sum of the coefficients of the terms with
+   this id (a Linear message may repeat an id), skipped if the sum is 0 *)
+Definition coef_sum (id : N) (ts : list (N * num)) : num :=
+  fold_left (fun acc t => if (fst t =? id)%N then acc + snd t else acc) ts 0.
 Definition w_col_entry (id : N) (vname rname : string) (f : function) : wres (list string) :=
   match as_linear f with
   | Some l =>
-      WOk (flat_map (fun t => if (fst t =? id)%N && negb (qeqb (snd t) 0)
-                              then ["    " +++ vname +++ "  " +++ rname +++ "  " +++ print_num (snd t)]
-                              else []) (l_terms l))
+      let c := coef_sum id (l_terms l) in
+      WOk (if qeqb c 0 then [] else ["    " +++ vname +++ "  " +++ rname +++ "  " +++ print_num c])
   | None => WErr (WConstraint rname (fn_degree f))
   end.
 
